@@ -37,21 +37,29 @@ def single_item_script(g):
     name = "tbl"
     t, ops = g.create_ops("c", name)
     n = r.randrange(12, 40)
+    # a handful of keys that the script keeps coming back to (overwrite, delete then re-put, update of an existing
+    # item, shrinking attribute sets), plus the occasional key from the whole key space
+    pool = [g.key_of(t["schema"]) for _ in range(r.randrange(2, 5))]
+    def pick(exact=True):
+        return dict(r.choice(pool)) if r.random() < 0.8 else g.key_of(t["schema"], exact=exact)
     while len(ops) < n:
         k = r.random()
         base = dict(client="c", table=name)
-        if k < 0.35: ops.append(dict(op="put", item=g.item_of(t), **base))
+        if k < 0.35:
+            it = g.item_of(t)
+            if r.random() < 0.8: it.update(pick())
+            ops.append(dict(op="put", item=it, return_old=r.random() < 0.4, **base))
         elif k < 0.55:
             e, nm, vs = g.update_expr()
-            key = g.key_of(t["schema"])
+            key = pick()
             if nm and r.random() < 0.3:
                 # an attribute literally named like the placeholder the update uses: an ordinary attribute, left alone
-                ops.append(dict(op="put", item={**key, sorted(nm)[0]: S("keep")}, **base))
+                ops.append(dict(op="put", item={**g.item_of(t), **key, sorted(nm)[0]: S("keep")}, **base))
             if r.random() < 0.08:
                 key = dict(key); key["zz"] = S("extra")     # not a key attribute: not part of an item the update creates
             ops.append(dict(op="update", key=key, expr=e, names=nm, values=vs, **base))
-        elif k < 0.7: ops.append(dict(op="delete", key=g.key_of(t["schema"]), return_old=r.random() < 0.7, **base))
-        else: ops.append(dict(op="get", key=g.key_of(t["schema"], exact=r.random() < 0.95), **base))
+        elif k < 0.7: ops.append(dict(op="delete", key=pick(), return_old=r.random() < 0.7, **base))
+        else: ops.append(dict(op="get", key=pick(exact=r.random() < 0.95), **base))
         if r.random() < 0.35:
             ops.append(dict(op="scan", **base))
             ops.append(dict(op="describe_table", **base))
@@ -206,8 +214,19 @@ def index_script(g):
     r = g.r
     if r.random() < 0.12:
         return retype_script(g)
-    style = r.choice(["create", "helper", "late"])
-    if style == "late":
+    style = r.choice(["create", "helper", "late", "tablekeys"])
+    if style == "tablekeys":
+        # indexes keyed on the table's own key attributes (an inverted index, hash-only indexes on h and on r): an item
+        # created by UpdateItem has its index keys from the very first moment, nothing "changes" when it is written
+        ops = [dict(op="create_table", client="c", table="tbl", hash=dict(name="h", type="S"), range=dict(name="r", type="S"),
+                    billing="PAY_PER_REQUEST", throughput=True, attrs=[dict(name="g", type="S")],
+                    gsi=[dict(name="inv", hash=dict(name="r"), range=dict(name="h"), throughput=True),
+                         dict(name="hix", hash=dict(name="h"), throughput=True), dict(name="rix", hash=dict(name="r"), throughput=True)]
+                        + ([dict(name="gix", hash=dict(name="g"), throughput=True)] if r.random() < 0.5 else []))]
+        t = dict(name="tbl", schema=gen.SCHEMAS[1], indexes=[dict(name="inv", hash="r", range="h"), dict(name="hix", hash="h", range=None),
+                                                              dict(name="rix", hash="r", range=None)])
+        ops += populate(g, t, nmin=1, nmax=4)
+    elif style == "late":
         # the index is created after the data exists
         t, ops = g.create_ops("c", "tbl", style="helper")
         ops = ops[:1]; t["indexes"] = []
@@ -702,7 +721,26 @@ def restrictions_script(g):
         k = r.random()
         q = r.random()
         w = r.choice(words) if q < 0.5 else r.choice(allw).lower() if q < 0.8 else r.choice(edge).lower()
+        if r.random() < 0.15:
+            # reserved words that are also keywords of the expression language (they lex as keywords only in upper case)
+            w = r.choice(["set", "add", "delete", "remove", "in", "not", "and", "or", "between"])
         w = r.choice([w, w.upper(), w.capitalize()])
+        if r.random() < 0.2:
+            # in a projection (never parsed, only scanned for reserved words), alone or after an ordinary attribute
+            proj = r.choice(["%s", "g, %s", "%s, g", "g,%s", "#g, %s"]) % w
+            rd = dict(projection=proj, names=({"#g": "g"} if "#g" in proj else {}))
+            ops.append(r.choice([dict(op="get", key={"h": S("a"), "r": S("1")}, **rd, **base), dict(op="scan", values={}, **rd, **base),
+                                 dict(op="query", keycond="h = :h", values={":h": S("a")}, **rd, **base),
+                                 dict(op="batch_get", client="c", requests={"tbl": [{"h": S("a"), "r": S("1")}]}, opts={"tbl": rd})]))
+            continue
+        if r.random() < 0.08:
+            # names are scoped to one table entry of a BatchGetItem: a name supplied for one table and used only by the
+            # projection of the other is unused here and undefined there
+            ops.append(dict(op="batch_get", client="c", requests={"tbl": [{"h": S("a"), "r": S("1")}], "tb2": [{"h": S("a")}]},
+                            opts=r.choice([{"tbl": dict(names={"#x": "g"}, projection="g"), "tb2": dict(names={}, projection="#x")},
+                                           {"tbl": dict(names={"#x": "g", "#y": "h"}, projection="#x"), "tb2": dict(names={}, projection="#y")},
+                                           {"tbl": dict(names={"#x": "g"}, projection="#x"), "tb2": dict(names={"#x": "h"}, projection="#x")}])))
+            continue
         if k < 0.14: ops.append(dict(op="scan", filter="%s = :v" % w, names={}, values={":v": S("x")}, **base))
         elif k < 0.2:
             e = r.choice(["%s.code = :v", "%s[0] = :v", ":v = %s", "attribute_exists(%s.x)", "g = :v AND %s = :v", "NOT %s = :v", "contains(%s, :v)", "%s IN (:v)", "%s BETWEEN :v AND :v"]) % w
